@@ -21,14 +21,19 @@ func init() {
 	register(&Prop{ID: "C35", Gen: genC35, Run: crashSafe("C35", runC35), Timeout: 30 * time.Second})
 }
 
+// item i of a derived list: byte j is byte j%8 (little endian) of the 64-bit word
+// seed + i*0x9E3779B97F4A7C15 + (j/8)*0xD1B54A32D192ED03
 func c35SeqItem(seed uint64, i int, ln int) []byte {
-	w := seed + uint64(i)*0x9E3779B97F4A7C15
+	out := make([]byte, ln)
 	var b [8]byte
-	binary.LittleEndian.PutUint64(b[:], w)
-	if ln > 8 {
-		ln = 8
+	for j := 0; j < ln; j++ {
+		if j%8 == 0 {
+			w := seed + uint64(i)*0x9E3779B97F4A7C15 + uint64(j/8)*0xD1B54A32D192ED03
+			binary.LittleEndian.PutUint64(b[:], w)
+		}
+		out[j] = b[j%8]
 	}
-	return append([]byte{}, b[:ln]...)
+	return out
 }
 
 func c35SeqMsg(n int, seed uint64) []byte {
@@ -103,6 +108,15 @@ func genC35(r *Rand, n int, tier string, emit func(string)) {
 	}
 	for k := 0; k <= L; k++ {
 		explicit(k, false)
+	}
+	// 2b. item lengths around the hash's internal buffer sizes (the tag byte shifts them by one):
+	// 127/128/129 = one Blake2b block, 255/256/257 = two, plus a long item
+	for _, il := range []int{62, 63, 64, 65, 126, 127, 128, 129, 254, 255, 256, 257, 258, 383, 384, 1000} {
+		emit(fmt.Sprintf("rootseq %d %d %d", Pick(r, 1, 2, 3, 5), r.U64()>>1, il))
+	}
+	// 2c. counts well past 128 with items of those lengths (a few each)
+	for _, k := range []int{129, 130, 200, 257, 513, 777, 1025, 1100} {
+		emit(fmt.Sprintf("rootseq %d %d %d", k, r.U64()>>1, Pick(r, 255, 256, 257, 127, 128, 33)))
 	}
 	// 3. boundary lengths (2^k-1, 2^k, 2^k+1, 1.5·2^k ±1) with derived items
 	for _, k := range c35Lengths(maxSeq) {
